@@ -76,3 +76,8 @@ func VerifCloseWatchChan(b Backend) {
 
 // VerifWatchCache exposes the event cache ring of a backend.
 func VerifWatchCache(b Backend) *Ring { return b.(*backend).watchCache }
+
+// VerifRetryMinRevision returns the revision of the oldest uncertain operation waiting for repair (0 if none).
+func VerifRetryMinRevision(b Backend) uint64 {
+	return b.(*backend).asyncFifoRetry.MinRevision()
+}
